@@ -98,7 +98,7 @@ theorem archOf_invalid {w : WM} {h : Handle} (hv : w.isValid h = false) : w.arch
 /-- an invalid handle that was issued names a dead ordinal; a never-issued one names none -/
 theorem valid_issued {c : CW} (hi : Inv c) (hb : Bounds c) {e : Handle} (hv : c.w.isValid e = true) : e ∈ c.issued := by
   rcases hi.tinv with ⟨g, tinv, hiss, _⟩
-  have hl := (valid_iff_live_any tinv hb.inRange e).mp (by rw [← isValid_tab]; exact hv)
+  have hl := (valid_iff_live_any tinv (Nat.le_of_lt hb.inRange) e).mp (by rw [← isValid_tab]; exact hv)
   have := tinv.live_issued e hl
   rw [hiss] at this
   exact List.mem_reverse.mp this
